@@ -22,6 +22,7 @@ from lbry.wallet import bip32
 from lbry.wallet.bip32 import PrivateKey, PublicKey, from_extended_key_string, _from_extended_key
 from lbry.wallet import Ledger, RegTestLedger, TestNetLedger, Database, Headers, Account, Wallet
 from lbry.wallet import mnemonic as mnemonic_mod
+from lbry.wallet.wallet import WalletStorage
 from lbry.wallet.mnemonic import Mnemonic
 
 from ecdsa import SECP256k1
@@ -642,6 +643,18 @@ def do_forced(run, model, case):
 
 
 # ---- accounts / address chains ----------------------------------------------------------------------
+class OneLedgerManager:
+    """what Wallet.from_storage needs from a wallet manager"""
+
+    def __init__(self, ledger):
+        self.ledger = ledger
+
+    def get_or_create_ledger(self, ledger_id):
+        if ledger_id != self.ledger.get_id():
+            raise ValueError(f'wallet file names ledger {ledger_id}')
+        return self.ledger
+
+
 def do_account(run, model, case):
     lname = case['ledger']
     prefix = LEDGERS[lname].pubkey_address_prefix
@@ -655,8 +668,10 @@ def do_account(run, model, case):
             ledger = LEDGERS[lname]({'db': Database(os.path.join(tmp, 'w.db')), 'headers': Headers(':memory:')})
             await ledger.db.open()
             try:
-                acc = Account.from_dict(ledger, Wallet(), {'seed': case['mnemonic'],
-                                                           'address_generator': case.get('generator', {})})
+                wallet_path = os.path.join(tmp, 'wallet.json')
+                wallet = Wallet(storage=WalletStorage(wallet_path))
+                acc = Account.from_dict(ledger, wallet, {'seed': case['mnemonic'],
+                                                         'address_generator': case.get('generator', {})})
                 snapshots, returns = [], []
                 chains = {0: acc.receiving, 1: acc.change}
 
@@ -691,6 +706,29 @@ def do_account(run, model, case):
                         restored.append([r['address'] for r in rs])
                 finally:
                     await ledger2.db.close()
+                # persistence path: save the wallet file (WalletStorage writes sorted keys), load it again as after
+                # a restart, regenerate the addresses in a fresh database
+                saved_gaps = [chains[c].gap for c in (0, 1)]
+                wallet.save()
+                reloaded = {}
+                ledger3 = LEDGERS[lname]({'db': Database(os.path.join(tmp, 'w3.db')), 'headers': Headers(':memory:')})
+                await ledger3.db.open()
+                try:
+                    wallet3 = Wallet.from_storage(WalletStorage(wallet_path), OneLedgerManager(ledger3))
+                    acc3 = wallet3.accounts[0]
+                    reloaded['chain_numbers'] = [acc3.receiving.chain_number, acc3.change.chain_number]
+                    reloaded['gaps'] = [acc3.receiving.gap, acc3.change.gap]
+                    reloaded['xpub'] = acc3.public_key.extended_key_string()
+                    reloaded['addresses'] = []
+                    for c, am in ((0, acc3.receiving), (1, acc3.change)):
+                        am.gap = max(2, len(await rows(c)))
+                        await am.ensure_address_gap()
+                        rs = await am._query_addresses(order_by='n asc')
+                        reloaded['addresses'].append([[r['pubkey'].n, r['address']] for r in rs])
+                finally:
+                    await ledger3.db.close()
+                with open(wallet_path) as f:
+                    reloaded['file_generator_keys'] = list(json.load(f)['accounts'][0]['address_generator'])
                 signing = []
                 for c in (0, 1):
                     rs = await rows(c)
@@ -698,7 +736,7 @@ def do_account(run, model, case):
                         signing.append([c, r['n'], r['addr'], chains[c].get_private_key(r['n']).address,
                                         chains[c].get_public_key(r['n']).address])
                 out = {'xpub': acc.public_key.extended_key_string(), 'acct': key_obs(acc.public_key),
-                       'signing': signing, 'restored': restored,
+                       'signing': signing, 'restored': restored, 'reloaded': reloaded, 'saved_gaps': saved_gaps,
                        'snapshots': snapshots, 'returns': returns,
                        'records': [await chains[c].get_addresses() for c in (0, 1)],
                        'max_gap': [await chains[c].get_max_gap() for c in (0, 1)],
@@ -767,6 +805,23 @@ def do_account(run, model, case):
         for c in (0, 1):
             if impl['restored'][c] != [r['addr'] for r in impl['snapshots'][-1][c]]:
                 bad = f'chain {c}: a wallet restored from the exported key lists different addresses / order'
+    rl = impl['reloaded']
+    if not bad:
+        if rl['xpub'] != impl['xpub']:
+            bad = 'after wallet.save() + Wallet.from_storage the account key differs'
+        elif rl['gaps'] != impl['saved_gaps']:
+            bad = f'after wallet.save() + Wallet.from_storage the gap settings are {rl["gaps"]}, saved {impl["saved_gaps"]}'
+    for c, cname in ((0, 'receiving'), (1, 'change')):
+        if bad:
+            break
+        got = rl['addresses'][c]
+        want = [[i, ra(c, i)] for i in range(len(got))]
+        if len(got) < 2 or got != want:
+            other = [[i, ra(1 - c, i)] for i in range(len(got))]
+            bad = (f'after wallet.save() + Wallet.from_storage (file lists address_generator keys '
+                   f'{rl["file_generator_keys"]}) the {cname} addresses are not m/{c}/i'
+                   + (f' -- they are m/{1 - c}/i' if got == other else '')
+                   + f'; chain numbers (receiving, change) = {rl["chain_numbers"]}; first: {got[:2]}, expected {want[:2]}')
     for c, n, addr, via_priv, via_pub in impl['signing']:
         if not bad and not (addr == via_priv == via_pub):
             bad = f'chain {c} index {n}: listed address {addr}, private-key route {via_priv}, public-key route {via_pub}'
@@ -800,6 +855,10 @@ def do_account(run, model, case):
             elif op[0] == 'use' and op[1] == c:
                 iret.append(None)
         run.compare('C06.gap_rows', case, final, mod['rows'])
+        nre = len(impl['reloaded']['addresses'][c])
+        mre = model.call('gap_run', prefix=prefix.hex(), acct=acct, c=c, ops=[['ensure', nre]])
+        run.compare('C06.gap_rows_after_reload', case, impl['reloaded']['addresses'][c],
+                    [[r['n'], r['addr']] for r in mre['rows']])
         run.compare('C06.gap_returns', case, iret, mod['returns'])
         run.compare('C06.gap_records', case, impl['records'][c], [r['addr'] for r in mod['records']])
         run.compare('C06.max_gap', case, impl['max_gap'][c], mod['max_gap'])
@@ -1227,10 +1286,15 @@ def gen_account(rng, n):
         words = [rng.choice(english) for _ in range(rng.choice([1, 3, 12, 12]))]
         mn = ' '.join(words)
         gen = {}
-        if rng.random() < 0.5:
-            gen = {'name': 'deterministic-chain',
-                   'receiving': {'gap': rng.choice([0, 1, 2, 3, 5, 8, 20]), 'maximum_uses_per_address': rng.choice([1, 2])},
-                   'change': {'gap': rng.choice([0, 1, 2, 6]), 'maximum_uses_per_address': 1}}
+        if rng.random() < 0.65:
+            parts = {'name': 'deterministic-chain',
+                     'receiving': {'gap': rng.choice([0, 1, 2, 3, 5, 8, 20]), 'maximum_uses_per_address': rng.choice([1, 2])},
+                     'change': {'gap': rng.choice([0, 1, 2, 6]), 'maximum_uses_per_address': 1}}
+            # the dict may arrive in any key order (a wallet file has sorted keys) and may omit entries
+            order = rng.choice([['name', 'receiving', 'change'], ['change', 'name', 'receiving'],
+                                ['change', 'receiving', 'name'], ['receiving', 'change'], ['change', 'receiving'],
+                                ['name', 'change'], ['change'], ['receiving'], ['name', 'change', 'receiving']])
+            gen = {k: parts[k] for k in order}
         ops = []
         rows = {0: [], 1: []}
         gaps = {0: gen.get('receiving', {}).get('gap', 20), 1: gen.get('change', {}).get('gap', 6)}
